@@ -404,7 +404,8 @@ def rule_validation_before_write(ctx):
                     p_ = g.path_avoiding(g.entry, g.node_of(w), lambda n: n in ifs, labels_skip=("exc", "raise"))
                     if p_ is not None:
                         okid, path = False, g.describe_path(p_)
-            run.check(okid, R, key(fi.module.relpath, fi.qualname, "extension-definition-name-is-an-identifier:%s" % r_),
+            run.check(okid, R, key(fi.module.relpath, fi.qualname, "extension-definition-name-is-an-identifier%s" % (
+                "" if len(recv) == 1 else "#%d" % (recv.index(r_) + 1))),
                       "a name is admitted because it starts with '%s' but the rest is not validated as the identifier of an "
                       "extension-definition object (the sibling site does): '%sfoo' is accepted, and objects using it are written "
                       "with an invalid extension key" % (PFX, PFX), file=fi.module.relpath, line=fi.node.lineno, function=fi.qualname,
